@@ -18,6 +18,7 @@ ap = argparse.ArgumentParser()
 ap.add_argument("--only", default=None)
 ap.add_argument("--thorough", action="store_true")
 ap.add_argument("--jobs", type=int, default=2)
+ap.add_argument("--from-meta", action="store_true", help="run nothing: write RESULTS.md from the 'final' verdicts stored in the meta.json files")
 a = ap.parse_args()
 ROOT = "/verif/seeded"
 
@@ -61,10 +62,19 @@ names = sorted(n for n in os.listdir(ROOT) if os.path.isfile(os.path.join(ROOT, 
 if a.only:
     names = [n for n in names if n in a.only.split(",")]
 rows = []
-with cf.ThreadPoolExecutor(a.jobs) as ex:
-    for res in ex.map(run_seed, names):
-        print(res[0], res[2], res[5], f"{res[4]:.0f}s", res[3][:2], flush=True)
-        rows.append(res)
+if a.from_meta:
+    for n in names:
+        meta = json.load(open(os.path.join(ROOT, n, "meta.json")))
+        fin = meta.get("final")
+        if not fin:
+            print("no final verdict stored for", n)
+            continue
+        rows.append((n, meta["property"], fin["verdict"], fin.get("signatures", []), fin.get("wall_s", 0.0), fin.get("tier", "quick")))
+else:
+    with cf.ThreadPoolExecutor(a.jobs) as ex:
+        for res in ex.map(run_seed, names):
+            print(res[0], res[2], res[5], f"{res[4]:.0f}s", res[3][:2], flush=True)
+            rows.append(res)
 if not a.only:
     with open(os.path.join(ROOT, "RESULTS.md"), "w") as f:
         f.write("# Independently seeded property-breaking changes: which check catches which\n\n")
